@@ -6,6 +6,7 @@ import (
 	"encoding/hex"
 	"fmt"
 	"io"
+	"runtime"
 	"sync"
 	"testing/synctest"
 
@@ -117,6 +118,13 @@ type dirPlan struct {
 	data   []byte
 	writes []int
 	reads  []int // cyclic list of read buffer sizes
+	// yield[i]: after read i (cyclic) the reader parks until the driver lets it
+	// go on, so that the tape decides how the Reads of the two connections of
+	// the process interleave (a Read that left a remainder in the connection
+	// does not otherwise block before it drains it)
+	yield  []bool
+	parked bool
+	resume chan struct{}
 
 	mu       sync.Mutex
 	wDone    bool
@@ -170,6 +178,14 @@ func (r *runState) planDir(maxTotal int) *dirPlan {
 	}
 	// a cycle of only zero-length buffers would never finish
 	p.reads = append(p.reads, t.Range(1, 70000))
+	y := r.c.Tape.Fork("yield")
+	if y.Bool(2, 3) {
+		den := y.Range(2, 12)
+		for range p.reads {
+			p.yield = append(p.yield, y.Bool(1, den))
+		}
+	}
+	p.resume = make(chan struct{})
 	return p
 }
 
@@ -251,7 +267,12 @@ func (p *dirPlan) reader(rd io.Reader) {
 		if size > 0 && n < p.shortest {
 			p.shortest = n
 		}
+		park := len(p.yield) > 0 && p.yield[(i-1)%len(p.yield)] && got < len(p.data)
+		p.parked = park
 		p.mu.Unlock()
+		if park {
+			<-p.resume
+		}
 	}
 	p.mu.Lock()
 	p.hash = h.Sum(nil)
@@ -294,6 +315,9 @@ func minCapacity(mode byte, drawn int, payloadBytes int64, writes int) int {
 // byte streams.
 func (r *runState) scenarioStream() {
 	c := r.c
+	// one P: whatever process-wide state the connections of one process share
+	// (pools, caches) is then shared between the two ends deterministically
+	defer runtime.GOMAXPROCS(runtime.GOMAXPROCS(1))
 	kA := newRecKey(r.keys.Bytes(32), r.led)
 	kB := newRecKey(r.keys.Bytes(32), r.led)
 	caps := [2]int{}
@@ -327,7 +351,32 @@ func (r *runState) scenarioStream() {
 	go plans[0].reader(sc1)
 	go plans[1].writer(sc1)
 	go plans[1].reader(sc0)
-	p.settle()
+	// deliveries and the release of parked readers, both in tape order
+	for steps := 0; steps < maxSettleSteps; steps++ {
+		moved := p.step()
+		synctest.Wait()
+		var parked []*dirPlan
+		for _, pl := range plans {
+			pl.mu.Lock()
+			if pl.parked {
+				parked = append(parked, pl)
+			}
+			pl.mu.Unlock()
+		}
+		released := false
+		if len(parked) > 0 && (!moved || r.net.Bool(1, 2)) {
+			pl := parked[r.net.Int(len(parked))]
+			pl.mu.Lock()
+			pl.parked = false
+			pl.mu.Unlock()
+			pl.resume <- struct{}{}
+			released = true
+			c.Probe("reader_interleaved_at_read_boundary")
+		}
+		if !moved && !released {
+			break
+		}
+	}
 	synctest.Wait()
 
 	r.sample["caps"] = caps
